@@ -464,15 +464,36 @@ func Solve(ctx context.Context, cfg *SolverCfg, q *Query) *Result {
 	}
 	cctx, cancel := context.WithCancel(ctx)
 	defer cancel()
-	ch := make(chan r, len(rest))
+	// together with one seed variant of each z3 (some obligations are decided in a second under one random
+	// seed and not at all under another; any unsat is a proof)
+	type job struct {
+		name string
+		seed int
+	}
+	var jobs []job
 	for _, name := range rest {
-		go func(name string) {
-			s, o, m := runSolver(cctx, cfg, name, text, cfg.TimeoutMs)
+		jobs = append(jobs, job{name, cfg.Seed})
+	}
+	for _, name := range order {
+		if name != "cvc5" {
+			jobs = append(jobs, job{name, cfg.Seed + 100})
+		}
+	}
+	ch := make(chan r, len(jobs))
+	for _, j := range jobs {
+		go func(j job) {
+			cc := *cfg
+			cc.Seed = j.seed
+			s, o, m := runSolver(cctx, &cc, j.name, text, cfg.TimeoutMs)
+			name := j.name
+			if j.seed != cfg.Seed {
+				name = fmt.Sprintf("%s(seed %d)", j.name, j.seed)
+			}
 			ch <- r{s, o, name, m}
-		}(name)
+		}(j)
 	}
 	best := r{st: st, out: firstOut, name: order[0]}
-	for range rest {
+	for range jobs {
 		x := <-ch
 		res.Attempt = append(res.Attempt, fmt.Sprintf("%s:%s:%dms", x.name, x.st, x.ms))
 		if x.ms > res.Millis {
@@ -491,6 +512,51 @@ func Solve(ctx context.Context, cfg *SolverCfg, q *Query) *Result {
 		}
 	}
 	res.Status, res.Solver, res.Output = best.st, best.name, best.out
+	// No verdict under this random seed is not a verdict about the obligation: a second round with other seeds
+	// (a failed proof attempt proves nothing, so trying again is always legitimate; an unsat found by any
+	// configuration is a proof). Only undecided obligations pay for it.
+	type r2 struct {
+		st, out, name string
+		ms            int64
+	}
+	var alts []struct {
+		name string
+		seed int
+	}
+	for _, d := range []int{2, 3} {
+		for _, name := range order {
+			if name != "cvc5" {
+				alts = append(alts, struct {
+					name string
+					seed int
+				}{name, cfg.Seed + 100*d})
+			}
+		}
+	}
+	c2, cancel2 := context.WithCancel(ctx)
+	defer cancel2()
+	ch2 := make(chan r2, len(alts))
+	for _, a := range alts {
+		go func(name string, seed int) {
+			cc := *cfg
+			cc.Seed = seed
+			s, o, m := runSolver(c2, &cc, name, text, cfg.TimeoutMs)
+			ch2 <- r2{s, o, fmt.Sprintf("%s(seed %d)", name, seed), m}
+		}(a.name, a.seed)
+	}
+	for range alts {
+		x := <-ch2
+		res.Attempt = append(res.Attempt, fmt.Sprintf("%s:%s:%dms", x.name, x.st, x.ms))
+		if x.st == "unsat" || x.st == "sat" {
+			res.Status, res.Solver, res.Output = x.st, x.name, x.out
+			if x.st == "sat" {
+				res.Model = modelPart(x.out)
+			}
+			res.Millis += x.ms
+			cancel2()
+			return res
+		}
+	}
 	return res
 }
 
